@@ -323,6 +323,22 @@ def merge(repo: Repo, chk: Check) -> None:
         "under are_equivalent; a new choose gets a fresh switch; existing chooses only gain operations",
         floor=5,
     )
+    # every kernel op that meets its counterpart in the abstract graph has its routing reconciled, whatever else is (not) to be done
+    g_, gfl = flow_of(repo, chk, COMBINE, "append_to_abstract_graph")
+    unc = [s for s in gfl.calls("uncollide_inputs") if s.reachable]
+    if len(unc) < 2:
+        chk.bad("C20.merge", f"{g_.key}:reconcile", g_.where, f"uncollide_inputs is called at {len(unc)} site(s); expected for an existing choose op and for the terminator")
+    head = [x for x in gfl.stmts(ast.For) if x.reachable and not [l for l in x.loops if isinstance(l, ast.For)]]
+    base = set(head[0].fact_texts) if head else set()
+    for n_, s in enumerate(unc, 1):
+        new = [fa for fa in s.facts if fa.kind == "atom" and fa.text not in base]
+        allowed = [fa for fa in new if norm.any_match(["isinstance($o, phs.ChooseOp)", "isinstance($o, ChooseOp)", "isinstance($o, phs.YieldOp)", "isinstance($o, YieldOp)",
+                                                        "not isinstance($o, $c)", "$g.get_choose_op($i) is not None", "$g.get_choose_op($i)"], fa.expr) is not None]
+        extra = [fa.text[:90] for fa in new if fa not in allowed]
+        chk.result(not extra, "C20.merge", f"{g_.key}:reconcile#{n_}", s.where(),
+                   "the routing of a kernel op is reconciled with its abstract counterpart whenever that counterpart exists",
+                   f"uncollide_inputs is only called under {extra}: a kernel that re-uses an operation already present, but with other operand routing, is merged "
+                   "without a mux and can no longer be decoded (or decodes to other routing)", s.fact_texts)
     f, fl = flow_of(repo, chk, COMBINE, "uncollide_inputs")
     abst = f.param(1)
     key = f.key
